@@ -3,3 +3,4 @@ pub mod headers;
 pub mod response;
 pub mod router;
 pub mod tokens;
+pub mod srvsuites;
